@@ -1319,6 +1319,30 @@ impl ArchiveBuilder {
             // Set last offset
             sector_offsets[sector_count] = (data_start + sector_data.len()) as u32;
 
+            // A file none of whose sectors shrank is stored uncompressed. The format
+            // has no sector offset table (and no sector checksums) for such files:
+            // readers take the stored bytes as the content, sector by sector.
+            if flags & BlockEntry::FLAG_COMPRESS == 0 {
+                flags &= !BlockEntry::FLAG_SECTOR_CRC;
+                if *encrypt {
+                    flags |= BlockEntry::FLAG_ENCRYPTED;
+                    if *use_fix_key {
+                        flags |= BlockEntry::FLAG_FIX_KEY;
+                    }
+                    let key = self.calculate_file_key(
+                        archive_name,
+                        *file_pos,
+                        file_data.len() as u32,
+                        flags,
+                    );
+                    for (i, sector) in sector_data.chunks_mut(*sector_size).enumerate() {
+                        self.encrypt_data(sector, key.wrapping_add(i as u32));
+                    }
+                }
+                writer.write_all(&sector_data)?;
+                return Ok((sector_data.len(), flags));
+            }
+
             // Log CRC generation if enabled
             if self.generate_crcs {
                 log::debug!(
